@@ -302,7 +302,7 @@ type goType struct {
 }
 
 var c20GoFields = []goField{
-	{"name", "string", "string"}, {"", "Base", "Base"}, {"next", "*Node", "Node"}, {"buf", "bytes.Buffer", "bytes.Buffer"}, {"items", "[]Item", "Item"}, {"fn", "func(int) string", "func"},
+	{"name", "string", "string"}, {"", "Base", "Base"}, {"next", "*Node", "Node"}, {"buf", "bytes.Buffer", "bytes.Buffer"}, {"items", "[]Item", "Item"}, {"fn", "func(int) string", "func"}, {"any", "interface{}", "interface{}"},
 }
 var c20GoCalls = []goCall{
 	{"fmt.Println(\"x\")", "fmt", "Println"}, {"s.helper()", "s", "helper"}, {"defer s.Close()", "s", "Close"}, {"str.ToUpper(\"a\")", "str", "ToUpper"},
@@ -434,6 +434,13 @@ func c20GoGen(c *engine.C) engine.Case {
 		name := fmt.Sprintf("Free%d", i)
 		free = append(free, name)
 		fmt.Fprintf(&sb, "func %s(a string, b int) (string, error) {\n\tfmt.Println(a)\n\treturn a, nil\n}\n\n", name)
+	}
+	if c.Bool("free-function-returning-interface{}-after-a-parameter-of-the-last-declared-type") && len(types) > 0 {
+		// an anonymous interface{} directly behind the name of the most recently declared type
+		last := types[len(types)-1].Name
+		free = append(free, "Top")
+		fmt.Fprintf(&sb, "func Top(s *%s) interface{} {\n\treturn nil\n}\n\n", last)
+		c.Tag("interface{}-result-after-type-name")
 	}
 	if c.Bool("bodyless-function-declaration") {
 		sb.WriteString("func implementedElsewhere(a int) int\n\n")
